@@ -32,7 +32,7 @@ def one_run(sys_seed, np_seed, niter, opts, kind, tmp):
         if root is not None:
             system.root_dir = root
     else:
-        system, _ = systems.persist_chain_system(r, ncomp=r.randint(1, 3), name='mon', root_dir=root, norms=False)
+        system, _ = systems.persist_chain_system(r, ncomp=3, name='mon', root_dir=root, norms=False)     # up to 6 outputs: more than the 3 that are plotted
     test_set = None
     if opts['test_set']:
         rs = np.random.RandomState(sys_seed)
@@ -81,7 +81,9 @@ def run(ctx: Ctx):
             sys_seed = ctx.seed * 1000 + n; np_seed = rng.randint(0, 10 ** 6); niter = rng.randint(4, 6)
             kind = 'loop' if n % 3 == 2 else 'chain'
             base = one_run(sys_seed, np_seed, niter, base_opts, kind, tmp)
-            todo = combos[1:] if not ctx.quick else rng.sample(combos[1:], 15)
+            todo = combos[1:] if not ctx.quick else rng.sample(combos[1:], 13)
+            if ctx.quick:     # always include the combinations that switch on every monitoring branch
+                todo += [c for c in combos if c['test_set'] and c['root_dir'] and c['plot_interval'] == 1 and c['log'] == 'none'][:2]
             for opts in todo:
                 case = {'system_seed': sys_seed, 'kind': kind, 'numpy_seed': np_seed, 'iterations': niter, 'options': opts}
                 ctx.case(case, nontrivial=True, kind=kind)
@@ -100,5 +102,31 @@ def run(ctx: Ctx):
                     ctx.violate('C19:random-stream-consumed-by-monitoring', f'options {opts}: the global random stream is at a different position after training', case)
                 if any(not systems.floats_close(r['pred'][k], base['pred'][k], rtol=1e-12) for k in base['pred']):
                     ctx.violate('C19:predictions-change', f'options {opts}: predictions differ from the run without monitoring', case)
+        run_verbose(ctx)
     finally:
         shutil.rmtree(tmp, ignore_errors=True)
+
+
+def run_verbose(ctx: Ctx):
+    """asking predict() for verbose output changes only the log: same values, same NaN pattern (also for samples that do not converge)"""
+    import logging
+    rng = ctx.rng
+    for n in range(ctx.pick(5, 30)):
+        r = random.Random(ctx.seed * 71 + n)
+        system, spec = systems.random_loop_system(r, size=r.randint(2, 3), name=f'vb{n}', extra=True, nonlinear=r.random() < 0.5)
+        xs = {f'x{i}': np.array([round(rng.random(), 4) for _ in range(5)]) for i in range(spec['size'])}
+        maxit = rng.choice([0, 1, 2, 3, 50]); amem = rng.choice([1, 3, 10])
+        case = {'verbose_case': n, 'max_fpi_iter': maxit, 'anderson_mem': amem, 'x': {k: v.tolist() for k, v in xs.items()}}
+        ctx.case(case, nontrivial=True, kind='verbose-predict')
+        quiet = system.predict(xs, use_model='best', max_fpi_iter=maxit, anderson_mem=amem, verbose=False)
+        sink = io.StringIO()
+        logging.disable(logging.NOTSET)
+        try:
+            with contextlib.redirect_stdout(sink), contextlib.redirect_stderr(sink):
+                loud = system.predict(xs, use_model='best', max_fpi_iter=maxit, anderson_mem=amem, verbose=True)
+        finally:
+            logging.disable(logging.CRITICAL)
+        for k in quiet:
+            if not systems.floats_close(quiet[k], loud[k], rtol=0, atol=0):
+                ctx.violate('C19:verbose-changes-prediction', f'{k}: {np.asarray(quiet[k]).tolist()} with verbose=False, {np.asarray(loud[k]).tolist()} with verbose=True', case)
+                break
